@@ -67,7 +67,8 @@ enum Sub
     G_FILL_HEADER,
     G_ITER_CURSOR,
     G_HEADER_FIELDS, // read and re-write blockLength / numInGroup through the dimension composite
-    G_ITER_INDEXED, // flat groups: *(begin()+i), begin()[i], (end()-1-i) for every i
+    G_ITER_INDEXED,
+    G_RESIZE_THEN_LAST, // resize(count+1), then access the new last entry's first byte position (view only) // flat groups: *(begin()+i), begin()[i], (end()-1-i) for every i
     // data
     D_ADDR,
     D_SIZE,
@@ -79,6 +80,7 @@ enum Sub
     D_RESIZE,
     D_PUSH_BACK,
     D_ASSIGN_STRING,
+    D_ASSIGN_STRING_LONG, // 40 characters, whatever fits
     D_CLEAR,
     // level
     L_SIZE_BYTES,
